@@ -173,27 +173,45 @@ func (f *skyFixture) writeConfig() string {
 }
 
 func (f *skyFixture) Start() error {
-	cfg := f.writeConfig()
-	f.logf, _ = os.Create(filepath.Join(f.Base, "skylight.log"))
-	f.cmd = exec.Command(verifBin("skylight"), "-c", cfg)
-	f.cmd.Stdout, f.cmd.Stderr = f.logf, f.logf
-	f.cmd.Dir = f.Base
-	if err := f.cmd.Start(); err != nil {
-		return err
-	}
-	for i := 0; i < 100; i++ {
-		if resp, err := f.Get("any.verif.test", "/health", "verif@harness.test"); err == nil && resp.Status != 0 {
-			return nil
+	var lastLog string
+	for attempt := 0; attempt < 3; attempt++ {
+		cfg := f.writeConfig() // picks a fresh port
+		f.logf, _ = os.Create(filepath.Join(f.Base, "skylight.log"))
+		f.cmd = exec.Command(verifBin("skylight"), "-c", cfg)
+		f.cmd.Stdout, f.cmd.Stderr = f.logf, f.logf
+		f.cmd.Dir = f.Base
+		if err := f.cmd.Start(); err != nil {
+			return err
 		}
-		time.Sleep(50 * time.Millisecond)
+		exited := make(chan struct{})
+		go func(c *exec.Cmd) { c.Wait(); close(exited) }(f.cmd)
+		for i := 0; i < 600; i++ {
+			if resp, err := f.Get("any.verif.test", "/health", "verif@harness.test"); err == nil && resp.Status != 0 {
+				return nil
+			}
+			select {
+			case <-exited:
+				i = 600
+			case <-time.After(50 * time.Millisecond):
+			}
+		}
+		b, _ := os.ReadFile(filepath.Join(f.Base, "skylight.log"))
+		lastLog = string(b)
+		f.cmd.Process.Kill()
+		<-exited
+		f.logf.Close()
+		if !strings.Contains(lastLog, "address already in use") && !strings.Contains(lastLog, "failed to listen") {
+			break
+		}
 	}
-	return fmt.Errorf("skylight did not come up")
+	f.cmd = nil
+	return fmt.Errorf("skylight did not come up: %s", truncateStr(lastLog, 400))
 }
 
 func (f *skyFixture) Stop() {
 	if f.cmd != nil && f.cmd.Process != nil {
 		f.cmd.Process.Kill()
-		f.cmd.Wait()
+		f.cmd.Wait() // already reaped by the watcher goroutine: returns an error at once
 	}
 	if f.logf != nil {
 		f.logf.Close()
